@@ -217,6 +217,9 @@ func Sockaddr(t *rapid.T) (kenc.Rec, map[string]string) {
 		copy(pad[:], rapid.SliceOfN(rapid.Byte(), 8, 8).Draw(t, "pad"))
 		port := rapid.OneOf(rapid.Uint16(), rapid.SampledFrom([]uint16{0, 1, 22, 80, 255, 256, 32767, 32768, 65535})).Draw(t, "port")
 		b = kenc.SockaddrInet(ip, port, pad)
+		if rapid.IntRange(0, 3).Draw(t, "ip4tail") == 0 {
+			b = append(b, rapid.SliceOfN(rapid.Byte(), 1, 112).Draw(t, "ip4garbage")...) // a caller's larger buffer (sockaddr_storage)
+		}
 		want["family"], want["addr"], want["port"] = "ipv4", fmt.Sprintf("%d.%d.%d.%d", ip[0], ip[1], ip[2], ip[3]), strconv.Itoa(int(port))
 	case 1:
 		var ip [16]byte
@@ -233,6 +236,16 @@ func Sockaddr(t *rapid.T) (kenc.Rec, map[string]string) {
 		flow := rapid.Uint32Range(0, 1<<28-1).Draw(t, "flow") // flowinfo is 28 bits wide
 		scope := rapid.Uint32().Draw(t, "scope")
 		b = kenc.SockaddrInet6(ip, port, flow, scope)
+		// the record carries the bytes the caller passed: the kernel takes an IPv6 address from 24 bytes on
+		// (the RFC 2133 form without sin6_scope_id), and callers pass larger buffers too
+		switch rapid.IntRange(0, 5).Draw(t, "ip6len") {
+		case 0:
+			b = b[:24]
+		case 1:
+			b = b[:rapid.IntRange(25, 27).Draw(t, "ip6cut")]
+		case 2:
+			b = append(b, rapid.SliceOfN(rapid.Byte(), 1, 100).Draw(t, "ip6tail")...)
+		}
 		want["family"], want["addr"], want["port"] = "ipv6", "IP6:"+kenc.Hex(ip[:]), strconv.Itoa(int(port))
 	case 2:
 		p := Val(t, "unixpath", ValOpts{MaxLen: 40})
